@@ -3,6 +3,7 @@
 import os, random, sys
 sys.path.insert(0, os.path.dirname(os.path.abspath(__file__)))
 import vlib, scen, lcheck
+import c16
 
 PID = "C17"
 
@@ -20,6 +21,11 @@ def family(seed, tier):
         docs.append((d["name"], d))
     g = scen.legacy_chain(seed + 3, name="c17-legacy", tip=26)
     d = g.doc(); d["control"] = {"api": True, "allHist": True, "apiAt": [8, 14, 20]}
+    docs.append((d["name"], d))
+    # bank era with PEG requests spread over unrated blocks (several arrival heights executed in one block): yields, refunds and
+    # statuses in the history must replay to the balances
+    sp = c16.chain(seed + 7, 3, tier)
+    d = sp.doc(); d["name"] = "c17-bank-spread"; d["control"] = {"api": True, "allHist": True, "apiAt": [14, 19]}
     docs.append((d["name"], d))
     # unconvertible conversions: PIP-10 active before enough rates exist for an average, and an overflowing amount
     # overflowing amount (before PIP-10) ...
